@@ -1,6 +1,7 @@
 package main
 
 import (
+	"runtime"
 	"bufio"
 	"crypto/sha1"
 	"encoding/hex"
@@ -38,7 +39,11 @@ func (g *Gen) Rand() *rand.Rand {
 
 // Run executes an input segment on the real code and records it. gen names the generator (for the evidence).
 func (g *Gen) Run(gen string, seg []Ev) {
-	out := g.p.Exec(seg)
+	out, crash := safeExec(g.p, seg)
+	if crash != "" {
+		g.w.crash(seg, crash)
+		return
+	}
 	if len(out) == 0 {
 		g.w.extra["not_executed_after_hangs"] = toInt(orZero(g.w.extra["not_executed_after_hangs"])) + 1
 		return
@@ -53,6 +58,27 @@ func (g *Gen) Pick(quick, thorough int) int {
 		return thorough
 	}
 	return quick
+}
+
+// safeExec runs the executor; a panic that escapes it (the library crashed outside a call the executor guards)
+// is reported as a crash of this case instead of killing the driver.
+func safeExec(p *Prop, seg []Ev) (out []Ev, crash string) {
+	defer func() {
+		if r := recover(); r != nil {
+			buf := make([]byte, 1<<14)
+			n := runtime.Stack(buf, false)
+			crash = fmt.Sprint(r) + "\n" + string(buf[:n])
+			out = nil
+		}
+	}()
+	return p.Exec(seg), ""
+}
+
+func (w *Writer) crash(seg []Ev, text string) {
+	if len(w.crashes) < 20 {
+		w.crashes = append(w.crashes, Ev{"seg": seg, "panic": text, "in_library": strings.Contains(text, "pip-services3-expressions-gox/")})
+	}
+	w.ncrash++
 }
 
 const chunkLines = 30000
@@ -72,6 +98,8 @@ type Writer struct {
 	gens     map[string]int
 	perChunk []int
 	extra    map[string]any
+	crashes  []Ev
+	ncrash   int
 }
 
 func NewWriter(dir string, p *Prop) *Writer {
@@ -147,6 +175,8 @@ func (w *Writer) Close() {
 		"generators":          gens,
 		"chunks":              w.perChunk,
 		"extra":               w.extra,
+		"crashes":             w.crashes,
+		"crash_count":         w.ncrash,
 	}
 	b, _ := json.MarshalIndent(meta, "", " ")
 	os.WriteFile(filepath.Join(w.dir, "meta.json"), b, 0o644)
